@@ -684,7 +684,14 @@ impl TextResource {
                     None
                 }
             })),
-            PositionMode::Both => Box::new(self.positionindex.keys()),
+            PositionMode::Both => Box::new(self.positionindex.iter().filter_map(|(k, positem)| {
+                //skip milestones: they are not positions in use by any text selection
+                if !positem.begin2end.is_empty() || !positem.end2begin.is_empty() {
+                    Some(k)
+                } else {
+                    None
+                }
+            })),
         }
     }
 
@@ -725,7 +732,14 @@ impl TextResource {
                 self.positionindex
                     .0
                     .range((Included(&begin), Excluded(&end)))
-                    .map(|(k, _)| k),
+                    .filter_map(|(k, positem)| {
+                        //skip milestones: they are not positions in use by any text selection
+                        if !positem.begin2end.is_empty() || !positem.end2begin.is_empty() {
+                            Some(k)
+                        } else {
+                            None
+                        }
+                    }),
             ),
         }
     }
